@@ -268,6 +268,10 @@ def build():
         ensures final(circuit).extends(old(circuit)), final(self).state@.len() == WIDTH, final(circuit).has_all(final(self).state@),
                 final(self).initialized, final(self).input_buffer == old(self).input_buffer, final(self).output_buffer == old(self).output_buffer,
                 final(self).config == old(self).config,'''
+    # base path: the capacity is carried ONLY by row adjacency in the permutation table; the callee contract therefore has a precondition on the caller's HISTORY:
+    # no other sponge row of that table was emitted since this challenger's previous duplexing.  Nothing in the API establishes it (finding C05-d1-capacity-chained-by-row-adjacency).
+    PERM_CONTRACT_BASE = PERM_CONTRACT.replace('requires old(self).initialized,', 'requires latest_sponge_row_of_the_table_is_this_challengers_previous_duplexing(old(circuit), *old(self)), old(self).initialized,')
+    u.text('verus! {\n/// HISTORY precondition of the D=1 (base-field) duplexing: see PERM_CONTRACT_BASE\npub uninterp spec fn latest_sponge_row_of_the_table_is_this_challengers_previous_duplexing<EF: Field, const WIDTH: usize, const RATE: usize, C: ChallengerPermConfig>(cb: &CircuitBuilder<EF>, ch: CircuitChallenger<WIDTH, RATE, C>) -> bool;\n}')
     u.text('verus! {\nimpl<const WIDTH: usize, const RATE: usize, C: ChallengerPermConfig> CircuitChallenger<WIDTH, RATE, C> {\n'
            '    /// ASSUMED callee contract (extension path): the caller has already applied the length tag\n'
            '    #[verifier::external_body]\n'
@@ -278,10 +282,10 @@ def build():
            '\n                final(circuit).vals_of(final(self).state@) == perm(old(circuit).vals_of(old(self).state@)),\n    { unimplemented!() }\n'
            '    /// ASSUMED callee contract (base path): the table adds `absorb_len` to the first capacity limb itself\n'
            '    #[verifier::external_body]\n'
-           '    fn duplexing_base<EF: ExtX>(&mut self, circuit: &mut CircuitBuilder<EF>, poseidon2_config: Poseidon2Config, absorb_len: usize)' + PERM_CONTRACT +
+           '    fn duplexing_base<EF: ExtX>(&mut self, circuit: &mut CircuitBuilder<EF>, poseidon2_config: Poseidon2Config, absorb_len: usize)' + PERM_CONTRACT_BASE +
            '\n                final(circuit).vals_of(final(self).state@) == perm(with_tag(old(circuit).vals_of(old(self).state@), RATE as nat, absorb_len as nat)),\n    { unimplemented!() }\n'
            '    #[verifier::external_body]\n'
-           '    fn duplexing_base_p1<EF: ExtX>(&mut self, circuit: &mut CircuitBuilder<EF>, poseidon1_config: Poseidon1Config, absorb_len: usize)' + PERM_CONTRACT +
+           '    fn duplexing_base_p1<EF: ExtX>(&mut self, circuit: &mut CircuitBuilder<EF>, poseidon1_config: Poseidon1Config, absorb_len: usize)' + PERM_CONTRACT_BASE +
            '\n                final(circuit).vals_of(final(self).state@) == perm(with_tag(old(circuit).vals_of(old(self).state@), RATE as nat, absorb_len as nat)),\n    { unimplemented!() }\n'
            '}\n'
            'pub open spec fn with_tag<F: Field>(s: Seq<F>, rate: nat, n: nat) -> Seq<F> {\n'
